@@ -97,6 +97,8 @@ type FuncVC struct {
 	storeLog []storeRec
 	softNotes []string
 	pureMode int
+	lockSnap *State
+	execKeys []string
 	freshRefs map[string]bool
 }
 
